@@ -48,6 +48,12 @@ pub struct Log {
     pub n_interpolate: u64,
     /// max validity queries per public call before BudgetTrip
     pub budget: u64,
+    /// online deadline monitor (C06): timeout of the running call in ns; a sampler call that
+    /// begins later than `first clock read + timeout` is a late iteration
+    pub timeout_ns: Option<u64>,
+    pub late_samples: u64,
+    pub worst_late_ns: u64,
+    pub samples_in_call: u64,
 }
 pub type LogRc = Rc<RefCell<Log>>;
 
@@ -66,6 +72,10 @@ impl Log {
             n_distance: 0,
             n_interpolate: 0,
             budget: 20_000_000,
+            timeout_ns: None,
+            late_samples: 0,
+            worst_late_ns: 0,
+            samples_in_call: 0,
         }))
     }
     pub fn push(&mut self, ev: Ev) {
@@ -76,6 +86,16 @@ impl Log {
     }
     pub fn clear_events(&mut self) {
         self.recs.clear();
+    }
+    /// Called at the beginning of every sampler call (before its own tick).
+    pub fn on_sampler_begin(&mut self) {
+        self.samples_in_call += 1;
+        if let (Some(t), Some(fr), Some(now)) = (self.timeout_ns, oxmpl::verif::first_read(), oxmpl::verif::now_nanos()) {
+            if now > fr.saturating_add(t) {
+                self.late_samples += 1;
+                self.worst_late_ns = self.worst_late_ns.max(now - fr - t);
+            }
+        }
     }
 }
 
@@ -151,6 +171,7 @@ impl<K: Kit> StateSpace for MonSpace<K> {
             }
         };
         let mut l = self.log.borrow_mut();
+        l.on_sampler_begin();
         l.n_uniform += 1;
         match &r {
             Ok(s) => {
@@ -262,6 +283,7 @@ impl<K: Kit> GoalSampleableRegion<K::S> for MonGoal<K> {
             }
         };
         let mut l = self.log.borrow_mut();
+        l.on_sampler_begin();
         l.n_goal_sample += 1;
         match &r {
             Ok(s) => {
